@@ -950,7 +950,10 @@ impl Parser {
                 let meta_right_brace = self.expect(&TokenEnum::RightBrace)?;
                 if self.next_matches(&TokenEnum::KeywordElse).is_some() {
                     if self.peek(&TokenEnum::KeywordIf) {
-                        let elseif_expr = self.parse_expr()?;
+                        // (only the nested `if`: operators that follow the whole chain apply to
+                        // the chain, exactly as they do after a plain `else { .. }`; every link
+                        // of the chain counts towards the nesting limit)
+                        let elseif_expr = self.nested(Self::parse_if_or_match)?;
                         let meta = join_meta(meta, elseif_expr.meta);
                         Ok(Expr::untyped(
                             ExprEnum::If(
